@@ -123,7 +123,8 @@ func define(t *testing.T, r *rep.R, script string, tt kapacitor.TaskType, vars m
 
 // ---------------------------------------------------------------- inputs
 
-var chars = []string{"a", "1", ".", "|", "(", ")", "'", "\"", "/", "\\", "\n", " ", "-", "=", ":", "é", "@", ",", "*", "!", "<"}
+var chars = []string{"a", "1", ".", "|", "(", ")", "'", "\"", "/", "\\", "\n", " ", "-", "=", ":", "é", "@", ",", "*", "!", "<",
+	"٣", "\u00a0", "\xff", "\x00"} // a non-ASCII digit, a non-ASCII space, an invalid UTF-8 byte, NUL
 
 var tokens = []string{"stream", "batch", "|from()", "|where(", "|eval(", "lambda:", " \"v\"", " 's'", " '''t'''", " /r/", " 1", " 1.5", " 1s", " TRUE", " >", " +", " -", " !", " AND", "(", ")", ",", ".as(", "var x =", " x", "\n", "// c\n", "@u(", " *", "|", ".", " =~", "|log()", ".groupBy(", "|window()", ".period("}
 
@@ -306,7 +307,7 @@ func checkJSON(t *testing.T, r *rep.R, doc string) {
 func TestCheck(t *testing.T) {
 	defer kit.CleanupTmp()
 	r := rep.New("C05", "model_checking",
-		"no input crashes, hangs or leaks. (text) EVERY string of up to 4 (thorough 5) symbols over a 21-character alphabet (quotes, slash, backslash, newline, a 2-byte rune, operators ...) and every sequence of up to 3 (thorough 4) TICKscript tokens out of 36, through ast.Parse, ast.ParseLambda (+ compile and evaluate what is accepted) and tick.Format; (define) the complete single-edit neighbourhood (every deletion, 12 substitutions per position, every transposition, every prefix) of 4 real scripts covering 25 node types, and every token sequence that parses, through TaskMaster.NewTask; (vars) every (type, value) pair out of 12 x 13 for every variable of a template script; (json) every single-position mutation (12 replacement values per position, every key deleted) of the JSON form of the real scripts through Pipeline.Unmarshal; each call inside a virtual-time bubble: a panic, a body that does not return and any goroutine left behind are violations. (data) every combination of field values {missing, 0, -1, min/max int, 1.5, '', 'x', true, 1s-duration} for the fields an expression reads, through every expression-bearing node of a real running task followed by a good point that must still come out. (udf) every sequence of up to 3 misbehaving responses from a UDF peer (unsolicited, out of order, negative sizes, empty, truncated or oversized frames, garbage): the process survives, a second task keeps working, the affected task can be stopped. states = inputs, transitions = calls")
+		"no input crashes, hangs or leaks. (text) EVERY string of up to 4 (thorough 5) symbols over a 25-character alphabet (quotes, slash, backslash, newline, a 2-byte letter, a non-ASCII digit and space, an invalid UTF-8 byte, NUL, operators ...) and every sequence of up to 3 (thorough 4) TICKscript tokens out of 36, through ast.Parse, ast.ParseLambda (+ compile and evaluate what is accepted) and tick.Format; (define) the complete single-edit neighbourhood (every deletion, 12 substitutions per position, every transposition, every prefix) of 4 real scripts covering 25 node types, and every token sequence that parses, through TaskMaster.NewTask; (vars) every (type, value) pair out of 12 x 13 for every variable of a template script; (json) every single-position mutation (12 replacement values per position, every key deleted) of the JSON form of the real scripts through Pipeline.Unmarshal; each call inside a virtual-time bubble: a panic, a body that does not return and any goroutine left behind are violations. (data) every combination of field values {missing, 0, -1, min/max int, 1.5, '', 'x', true, 1s-duration} for the fields an expression reads, through every expression-bearing node of a real running task followed by a good point that must still come out. (node runner) a node whose run function panics reports an error instead of taking the process down. (udf) every sequence of up to 3 misbehaving responses from a UDF peer (unsolicited, out of order, negative sizes, empty, truncated or oversized frames, garbage): the process survives, a second task keeps working, the affected task can be stopped. states = inputs, transitions = calls")
 	defer r.Write()
 	r.Assumption("a panic in a goroutine other than the caller's kills the worker process; the driver reports that as a process-crash violation with the input in flight as replay")
 	r.Assumption("a misbehaving UDF peer may fail its own task (the node reports the error); what must hold is that the process, other tasks and the control operations on the failed task are unaffected")
@@ -408,13 +409,56 @@ func TestCheck(t *testing.T) {
 			checkJSON(t, r, doc)
 		}
 	}
+	// the node runner turns a panic of a node's run function into a task error
+	if i, _ := rep.Shard(); i == 0 {
+		rep.Current(Case{Kind: "node-runner"})
+		for _, p := range nodeRunner(t, r) {
+			r.Violation(p.key, p.msg, Case{Kind: "node-runner"})
+		}
+	}
 	dataPart(t, r, mine, expired)
 	udfPart(t, r, mine, expired)
 	_ = os.Getenv
 }
 
+func nodeRunner(t *testing.T, r *rep.R) []problem {
+	var got error
+	what, detail := guard(t, func() {
+		env, err := kit.NewEnv("c05")
+		if err != nil {
+			panic(err)
+		}
+		p, err := pipeline.CreatePipeline("stream|from()", pipeline.StreamEdge, env.TM.CreateTICKScope(), kit.Deadman{}, nil)
+		if err != nil {
+			panic(err)
+		}
+		var first pipeline.Node
+		p.Walk(func(n pipeline.Node) error {
+			if first == nil {
+				first = n
+			}
+			return nil
+		})
+		got = kapacitor.VerifNodeRecovers(env.Diag.WithNodeContext("n"), first)
+		env.TM.Close()
+	})
+	r.Add("evaluations", 1)
+	r.Add("transitions", 1)
+	if what != "" {
+		return []problem{{what + ":node-runner", "a node whose run function panics: " + rep.Short(detail)}}
+	}
+	if got == nil || !strings.Contains(got.Error(), "nil map") {
+		return []problem{{"node-panic-not-reported", fmt.Sprintf("a node whose run function panics (assignment to entry in nil map) reported %v on its error channel", got)}}
+	}
+	return nil
+}
+
 func replay(t *testing.T, r *rep.R, c Case) {
 	switch c.Kind {
+	case "node-runner":
+		for _, p := range nodeRunner(t, r) {
+			r.Violation(p.key, p.msg, c)
+		}
 	case "text":
 		checkText(t, r, c.Text, []int{0, 1, 2})
 	case "define":
